@@ -234,20 +234,29 @@ H = Harness(
 
 # ------------------------------------------------------------------------------ decoration-time
 def deco_params(tier):
-    return [P("case", 0, 4)]
+    return [P("kind", 0, 2), P("ann", 0, 1), P("called", 0, 1), P("other", 0, 2), P("lead", 0, 1), P("is_async", 0, 1)]
 
 
 @guard
 def deco_fn(a, tier):
-    case = pick(a["case"], 5)
-    srcs = [
-        ("positional-only injected parameter", "def f(r: T0 = resource(), /): pass", TypeError),
-        ("unannotated injected parameter", "def f(r=resource()): pass", TypeError),
-        ("uncalled resource marker", "def f(r: T0 = resource): pass", TypeError),
-        ("valid keyword-only marker", "def f(*, r: T0 = resource()): pass", None),
-        ("valid async function", "async def f(x, r: T0 = resource('n')): pass", None),
-    ]
-    name, src, expect = srcs[case]
+    kind, ann, called = pick(a["kind"], 3), pick(a["ann"], 2), pick(a["called"], 2)
+    other, lead, is_async = pick(a["other"], 3), pick(a["lead"], 2), pick(a["is_async"], 2)
+    subject = "r" + (": T0" if ann else "") + " = " + ("resource('n')" if called else "resource")
+    good = "good: T0 = resource()"
+    parts = ["a"] if lead else []
+    if other == 1:
+        parts.append(good)
+    if kind == 2:
+        parts.append("*")
+    parts.append(subject)
+    if kind == 0:
+        parts.append("/")
+    if other == 2:
+        parts.append(good)
+    src = ("async " if is_async else "") + f"def f({', '.join(parts)}): pass"
+    # the statement: positional-only, unannotated or uncalled markers are rejected when the decorator is applied
+    invalid = kind == 0 or not ann or not called
+    name = f"{['positional-only', 'positional-or-keyword', 'keyword-only'][kind]} / {'annotated' if ann else 'unannotated'} / {'resource(...)' if called else 'uncalled `resource`'}"
     ns = {"resource": resource, "T0": T0}
     exec(src, ns)
     try:
@@ -255,9 +264,11 @@ def deco_fn(a, tier):
         raised = None
     except Exception as e:
         raised = type(e)
+    expect = TypeError if invalid else None
+    summary = {"signature": src}
     if raised is not expect:
-        return FAIL(f"decoration:{name}:raised={raised.__name__ if raised else None}", "", {"case": name})
-    return OK({"case": name}, True)
+        return FAIL(f"decoration:{name}:raised={raised.__name__ if raised else None}", src, summary)
+    return OK(summary, True)
 
 
 DECO = Harness(
@@ -267,7 +278,8 @@ DECO = Harness(
     params=deco_params,
     cube=lambda tier: 0,
     title="markers rejected (or accepted) when the decorator is applied",
-    bound_text=lambda tier: "5 fixed signatures",
+    bound_text=lambda tier: "the marked parameter positional-only / positional-or-keyword / keyword-only x annotated or not x `resource(...)` or the uncalled `resource` x alone / "
+    "after / before another, valid injected parameter x with or without a leading ordinary parameter x def / async def (144 signatures)",
     oracle="TypeError at decoration time for positional-only / unannotated / uncalled markers; valid ones accepted",
     outside="-",
 )
